@@ -32,6 +32,12 @@ KINDS = ['bag_cycle', 'add_leaf', 'delete_reissued', 'add', 'add_dup', 'add_exis
 
 
 def gen(r, tier, i):
+    if r.random() < 0.04:
+        # the engine side of the same operations (a key that is vacated and filled again, updates in flight):
+        # C10's structural workload, judged here on "the operations are carried out" and on the ledgers of the
+        # cells (nothing of a deleted compartment turns up in the one generated under its key)
+        from vmon.checks import c10
+        return {'family': 'engine', 'c10': c10.gen(r, tier, i)}
     A, B = ['a', 'b'], []
     fresh = ['g%d' % k for k in range(1, 9)]
     batches = []
@@ -117,6 +123,10 @@ def cell_shadow(key, n, deriver, tags=None):
 
 
 def run(spec):
+    if spec.get('family') == 'engine':
+        from vmon.checks import c10
+        from vmon.util import harvest
+        return harvest(c10.run(spec['c10']), ('structural_ops_carried_out', 'ledger_in_order', 'no_exception'), ['engine'])
     from vivarium.core.composer import Composite
     from vivarium.core.process import Process
     from vmon import structw
